@@ -252,8 +252,12 @@ func handleShareMemoryByMemFd(s *Session, h header) error {
 	if err != nil {
 		return errors.New("parse fd from unix domain failed,reason:" + err.Error())
 	}
-	if len(fds) < memfdCount {
+	if len(fds) != memfdCount {
 		s.logger.warnf("ParseUnixRights len fds:%d", len(fds))
+		// the descriptors have been installed into this process by recvmsg, nobody else will close them
+		for _, fd := range fds {
+			_ = syscall.Close(fd)
+		}
 		return errors.New("the number of memfd received is wrong")
 	}
 
@@ -264,11 +268,15 @@ func handleShareMemoryByMemFd(s *Session, h header) error {
 	//4.mapping share memory
 	qm, err := mappingQueueManagerMemfd(queuePath, queueFd)
 	if err != nil {
+		_ = syscall.Close(queueFd)
+		_ = syscall.Close(bufferFd)
 		return err
 	}
 	s.queueManager = qm
 	bm, err := getGlobalBufferManagerWithMemFd(bufferPath, bufferFd, 0, false, nil)
 	if err != nil {
+		// the queue's descriptor is owned by s.queueManager by now and released with it
+		_ = syscall.Close(bufferFd)
 		return err
 	}
 
